@@ -12,9 +12,14 @@
                                               ranks under the schedule (seed, adversary):
                                               "RUN rc=<simmpi code> mem=<sc_memory_status delta>" then one line
                                               "<rank>: <the A output of that rank>" per rank
+     N seed adv nr P v(0,0) ..              -> (-DC15_SIM) the USE of the ranges by the notify algorithm: P simulated ranks call sc_notify_payload
+                                              with type SC_NOTIFY_RANGES, num_ranges = nr, receivers of rank r = the j with v(r,j) != 0
+                                              (self included if v(r,r) != 0), payload to j = r * 4096 + j:
+                                              "RUN .." as for S, then per rank "<rank>: N s0 s1 ..:P p0 p1 .." (senders, their payloads)
    first/last of a T or A case are computed like sc_notify.c does (minimum / maximum peer, or P / -1). */
 #include <sc.h>
 #include <sc_ranges.h>
+#include <sc_notify.h>
 #include <stdio.h>
 #include <stdlib.h>
 #include <string.h>
@@ -80,13 +85,38 @@ static void adaptive_rank (FILE * o, int nr, int P, int r, const long *vs)
 }
 
 #ifdef C15_SIM
-typedef struct { int nr, P; const long *vs; char **out; } simarg_t;
+typedef struct { int nr, P, notify; const long *vs; char **out; } simarg_t;
+
+/* one rank's part of an N case: the ranges notify algorithm with num_ranges = nr */
+static void notify_rank (FILE * o, int nr, int P, int r, const long *vs)
+{
+  sc_array_t *receivers = sc_array_new (sizeof (int)), *senders = sc_array_new (sizeof (int));
+  sc_array_t *in_pay = sc_array_new (sizeof (int)), *out_pay = sc_array_new (sizeof (int));
+  sc_notify_t *notify = sc_notify_new (sc_MPI_COMM_WORLD);
+  size_t i;
+  int j;
+  for (j = 0; j < P; j++) if (vs[r * P + j] != 0) {
+    *(int *) sc_array_push (receivers) = j;
+    *(int *) sc_array_push (in_pay) = r * 4096 + j;
+  }
+  sc_notify_set_type (notify, SC_NOTIFY_RANGES);
+  sc_notify_ranges_set_num_ranges (notify, nr);
+  sc_notify_payload (receivers, senders, in_pay, out_pay, 1, notify);
+  fprintf (o, "N");
+  for (i = 0; i < senders->elem_count; i++) { fputc (' ', o); ph (o, *(int *) sc_array_index (senders, i)); }
+  fprintf (o, ":P");
+  for (i = 0; i < out_pay->elem_count; i++) { fputc (' ', o); ph (o, *(int *) sc_array_index (out_pay, i)); }
+  fputc ('\n', o);
+  sc_notify_destroy (notify);
+  sc_array_destroy (receivers); sc_array_destroy (senders); sc_array_destroy (in_pay); sc_array_destroy (out_pay);
+}
+
 static void sim_rank (int rank, int size, void *varg)
 {
   simarg_t *a = (simarg_t *) varg;
   size_t len = 0;
   FILE *m = open_memstream (&a->out[rank], &len);
-  adaptive_rank (m, a->nr, a->P, rank, a->vs);
+  if (a->notify) notify_rank (m, a->nr, a->P, rank, a->vs); else adaptive_rank (m, a->nr, a->P, rank, a->vs);
   fclose (m);
 }
 
@@ -100,7 +130,8 @@ int main (void)
     long *a; size_t na = 0, ca = 64;
     simmpi_opts o; simmpi_report rep; simarg_t sa;
     int rc, r, mem0;
-    if (tok == NULL || tok[0] != 'S') continue;
+    if (tok == NULL || (tok[0] != 'S' && tok[0] != 'N')) continue;
+    sa.notify = (tok[0] == 'N');
     a = (long *) malloc (ca * sizeof (long));
     while ((tok = strtok_r (NULL, " \n\r", &save)) != NULL) {
       if (na == ca) { ca *= 2; a = (long *) realloc (a, ca * sizeof (long)); }
@@ -205,6 +236,7 @@ int main (int argc, char **argv)
       free (table);
     }
     else { fprintf (stderr, "c15_harness: unknown case '%c'\n", op); return 2; }
+    fflush (o);                 /* a crash in a later case must not swallow the output of this one */
     free (a);
   }
   fflush (o);
